@@ -176,9 +176,46 @@ Lemma cmd_start_frame cf s l c s1 l1 stk r :
   (forall l0, l0 <> cmd_k s c -> mem (sh s1) l0 = mem (sh s) l0).
 Proof.
   intros Hc. destruct c; cbn in Hc; destr_in Hc; try discriminate; injection Hc as <- <- <- <-; cbn [cmd_hs cmd_k].
-  all: repeat match goal with |- context [consume _ ?v] => destruct v end; cbn.
+  all: repeat match goal with |- context [consume _ ?v] => is_var v; destruct v; cbn [consume] end; cbn.
   all: repeat match goal with |- context [decide (?h = ?h2)] => destruct (decide (h = h2)) end; cbn.
   all: split; [reflexivity|]; split; try (intros; reflexivity).
   all: try (intros h0 Hh0; rewrite ?upd_other by (intros ->; apply Hh0; cbn; auto); reflexivity).
   all: intros l0 Hl0; apply upd_other; exact Hl0.
+Qed.
+
+Ltac src_cases :=
+  repeat match goal with
+  | H : src_val _ ?v = Some _ |- _ =>
+      is_var v; destruct v; cbn [src_val] in H; destr_in H; try discriminate H; injection H as <-
+  | H : src_val _ ?v = None |- _ =>
+      is_var v; destruct v; cbn [src_val] in H; destr_in H; try discriminate H
+  end.
+
+Lemma cmd_start_bal a cf s l c s1 l1 stk r : valid a ->
+  cmd_start cf s l c = inl (s1, l1, stk, r) -> cmd_nocache c -> NoCacheH s -> cmd_dst_ok s c ->
+  mem (sh s1) (LCount a) = mem (sh s) (LCount a) /\ spend a stk = 0 /\
+  wR a (mem (sh s)) (cmd_k s c) + fsum (cmd_hs c) (fun h => href a (hnd s h))
+  = wR a (mem (sh s1)) (cmd_k s c) + srefs a (mem (sh s1)) stk + fsum (cmd_hs c) (fun h => href a (hnd s1 h)).
+Proof.
+  intros Ha Hc Hn Hnc Hd.
+  destruct c; try contradiction; cbn in Hc; destr_in Hc; try discriminate;
+    injection Hc as E1 E2 E3 E4; subst s1 l1 stk r.
+  all: src_cases.
+  all: try (exfalso; eapply Hnc; eassumption).
+  all: cbn [cmd_hs cmd_k cmd_dst_ok src_hs consume sh hnd mem m_set] in *.
+  all: repeat match goal with
+       | H : enter_pay _ _ _ = (_, ?fs) |- _ =>
+           let E := fresh "Eg" in pose proof (enter_pay_refs a Ha (upd (mem (sh s)) (LStore c) 0) _ _ _ _ _ H) as E;
+           destruct E as [? ?]; clear H
+       end.
+  all: gather a Ha (mem (sh s)).
+  all: repeat match goal with |- context [decide (?h = ?h2)] => destruct (decide (h = h2)); [subst|] end.
+  all: cbn [fsum wR srefs spend fr fpend app]; rewrite ?srefs_app, ?spend_app; cbn [srefs spend fr fpend].
+  all: repeat match goal with H : hnd _ _ = _ |- _ => rewrite H end.
+  all: rewrite ?upd_same; cbn [href ret_refs].
+  all: try (split; [reflexivity|]; split; is_lia2 Ha; fail).
+  all: destruct Hd as [Hd|Hd]; [rewrite ?Hd|subst; try congruence].
+  all: repeat match goal with H : hnd _ _ = _ |- _ => rewrite H end.
+  all: rewrite ?upd_same; repeat (rewrite upd_other by congruence); rewrite ?upd_same, ?Hd; cbn [href].
+  all: split; [reflexivity|]; split; is_lia2 Ha.
 Qed.
